@@ -275,3 +275,246 @@ Theorem wasm_routes_are_set (stored parsed : config) :
   wbody_parser wasm_set_from_json_body = Some WFromJsonStr /\
   wbody_parser wasm_set_from_object_body = Some WFromJsObject.
 Proof. repeat split; reflexivity. Qed.
+
+(* ------------------------------------------------------------------------------------------- *)
+(* E. the fuel of parse_json is never the reason for a refusal                                  *)
+(* ------------------------------------------------------------------------------------------- *)
+Lemma expect_len lit : forall s r, expect lit s = Some r -> length r <= length s.
+Proof.
+  induction lit as [|c lit IH]; intros s r H; cbn [expect] in H.
+  - injection H as <-. lia.
+  - destruct s as [|x s']; [discriminate|]. destruct (x =? c)%N; [|discriminate].
+    apply IH in H. cbn [length]. lia.
+Qed.
+
+Lemma parse_str_len : forall n s k r, length s <= n -> parse_str s = Some (k, r) -> length r <= length s.
+Proof.
+  induction n as [|n IH]; intros s k r Hn H.
+  - destruct s; [discriminate|cbn in Hn; lia].
+  - destruct s as [|b rest]; [discriminate|]. cbn [parse_str] in H.
+    repeat (match type of H with
+            | None = Some _ => discriminate H
+            | (if ?c then _ else _) = Some _ => destruct c
+            | (match parse_str ?x with _ => _ end) = Some _ =>
+                let E := fresh "E" in destruct (parse_str x) as [[? ?]|] eqn:E;
+                [apply IH in E; [|cbn [length] in Hn; lia]|discriminate H]
+            | (match ?x with _ => _ end) = Some _ => destruct x
+            end);
+    injection H as <- <-; cbn [length] in *; lia.
+Qed.
+
+Lemma take_digits_len s : length (snd (take_digits s)) <= length s.
+Proof.
+  induction s as [|b t IH]; [cbn; lia|]. cbn [take_digits]. destruct (is_digit b); [|cbn; lia].
+  destruct (take_digits t) as [d r]. cbn [snd length] in *. lia.
+Qed.
+
+Local Opaque take_digits.
+
+Lemma scan_exponent_len s l r : scan_exponent s = Some (l, r) -> length r <= length s.
+Proof.
+  unfold scan_exponent. destruct s as [|e s1]; [intros H; injection H as <- <-; lia|].
+  destruct ((e =? 101) || (e =? 69))%N; [|intros H; injection H as <- <-; lia].
+  destruct s1 as [|c s2]; [discriminate|].
+  destruct ((c =? 43) || (c =? 45))%N.
+  - destruct s2 as [|d s3]; [discriminate|]. destruct (is_digit d); [|discriminate].
+    intros H. injection H as <- <-. pose proof (take_digits_len (d :: s3)). cbn [length] in *. lia.
+  - destruct (is_digit c); [|discriminate].
+    intros H. injection H as <- <-. pose proof (take_digits_len (c :: s2)). cbn [length] in *. lia.
+Qed.
+
+Lemma scan_fraction_len s l r : scan_fraction s = Some (l, r) -> length r <= length s.
+Proof.
+  unfold scan_fraction. destruct s as [|p s1]; [intros H; injection H as <- <-; lia|].
+  destruct (p =? 46)%N; [|apply scan_exponent_len].
+  pose proof (take_digits_len s1) as Hd. destruct (fst (take_digits s1)); [discriminate|].
+  destruct (scan_exponent (snd (take_digits s1))) as [[ex r']|] eqn:E; [|discriminate].
+  intros H. injection H as <- <-. apply scan_exponent_len in E. cbn [length]. lia.
+Qed.
+
+Lemma scan_number_len b t l r : scan_number (b :: t) = Some (l, r) -> length r <= length t.
+Proof.
+  unfold scan_number. destruct (b =? 48)%N.
+  - destruct t as [|c t']; [intros H; injection H as <- <-; cbn; lia|].
+    destruct (is_digit c); [discriminate|].
+    destruct (scan_fraction (c :: t')) as [[f r']|] eqn:E; [|discriminate].
+    intros H. injection H as <- <-. now apply scan_fraction_len in E.
+  - destruct (is_digit b); [|discriminate].
+    pose proof (take_digits_len t) as Hd.
+    destruct (scan_fraction (snd (take_digits t))) as [[f r']|] eqn:E; [|discriminate].
+    intros H. injection H as <- <-. apply scan_fraction_len in E. lia.
+Qed.
+
+Section Fuel.
+  Variable nf : list N -> bool.
+
+  Lemma pval_S f d s :
+    pval nf (S f) d s =
+    match skip_ws s with
+    | [] => None
+    | b :: rest =>
+        if (b =? 110)%N then match expect [117; 108; 108]%N rest with Some r => Some (JNull, r) | None => None end
+        else if (b =? 116)%N then match expect [114; 117; 101]%N rest with Some r => Some (JBool true, r) | None => None end
+        else if (b =? 102)%N then match expect [97; 108; 115; 101]%N rest with Some r => Some (JBool false, r) | None => None end
+        else if (b =? 45)%N then
+          match scan_number rest with
+          | Some (lit, r) => if nf (b :: lit) then Some (JNum, r) else None
+          | None => None
+          end
+        else if is_digit b then
+          match scan_number (b :: rest) with
+          | Some (lit, r) => if nf lit then Some (JNum, r) else None
+          | None => None
+          end
+        else if (b =? 34)%N then match parse_str rest with Some (k, r) => Some (JStr k, r) | None => None end
+        else if (b =? 91)%N then match d with S (S d') => parr nf f (S d') true rest [] | _ => None end
+        else if (b =? 123)%N then match d with S (S d') => pobj nf f (S d') true rest [] | _ => None end
+        else None
+    end.
+  Proof. reflexivity. Qed.
+
+  Lemma parr_S f d first s acc :
+    parr nf (S f) d first s acc =
+    match skip_ws s with
+    | [] => None
+    | b :: rest =>
+        if (b =? 93)%N then Some (JArr (rev acc), rest)
+        else
+          match (if first then Some (b :: rest)
+                 else if (b =? 44)%N then
+                   match skip_ws rest with
+                   | [] => None
+                   | c :: r' => if (c =? 93)%N then None else Some (c :: r')
+                   end
+                 else None) with
+          | None => None
+          | Some s1 =>
+              match pval nf f d s1 with
+              | None => None
+              | Some (v, s2) => parr nf f d false s2 (v :: acc)
+              end
+          end
+    end.
+  Proof. reflexivity. Qed.
+
+  Lemma parse_lens : forall f,
+    (forall d s v r, pval nf f d s = Some (v, r) -> length r < length s) /\
+    (forall d first s acc v r, parr nf f d first s acc = Some (v, r) -> length r < length s) /\
+    (forall d first s acc v r, pobj nf f d first s acc = Some (v, r) -> length r < length s).
+  Proof.
+    induction f as [|f [IHv [IHa IHo]]]; [repeat split; intros; discriminate|].
+    split; [|split].
+    - intros d s v r. rewrite pval_S. pose proof (skip_ws_len s) as Hs.
+      destruct (skip_ws s) as [|b rest]; [discriminate|]. cbn [length] in Hs.
+      destruct (b =? 110)%N.
+      { destruct (expect _ rest) as [r0|] eqn:E; [|discriminate]. intros H. injection H as _ <-. apply expect_len in E. lia. }
+      destruct (b =? 116)%N.
+      { destruct (expect _ rest) as [r0|] eqn:E; [|discriminate]. intros H. injection H as _ <-. apply expect_len in E. lia. }
+      destruct (b =? 102)%N.
+      { destruct (expect _ rest) as [r0|] eqn:E; [|discriminate]. intros H. injection H as _ <-. apply expect_len in E. lia. }
+      destruct (b =? 45)%N.
+      { destruct rest as [|b1 t1]; [discriminate|].
+        destruct (scan_number (b1 :: t1)) as [[lit r0]|] eqn:E; [|discriminate].
+        destruct (nf (b :: lit)); [|discriminate]. intros H. injection H as _ <-. apply scan_number_len in E. cbn [length] in *. lia. }
+      destruct (is_digit b).
+      { destruct (scan_number (b :: rest)) as [[lit r0]|] eqn:E; [|discriminate].
+        destruct (nf lit); [|discriminate]. intros H. injection H as _ <-. apply scan_number_len in E. lia. }
+      destruct (b =? 34)%N.
+      { destruct (parse_str rest) as [[k r0]|] eqn:E; [|discriminate]. intros H. injection H as _ <-.
+        apply (parse_str_len _ _ _ _ (le_n _)) in E. lia. }
+      destruct (b =? 91)%N.
+      { destruct d as [|[|d']]; try discriminate. intros H. apply IHa in H. lia. }
+      destruct (b =? 123)%N; [|discriminate].
+      destruct d as [|[|d']]; try discriminate. intros H. apply IHo in H. lia.
+    - intros d first s acc v r. rewrite parr_S. pose proof (skip_ws_len s) as Hs.
+      destruct (skip_ws s) as [|b rest]; [discriminate|]. cbn [length] in Hs.
+      destruct (b =? 93)%N. { intros H. injection H as _ <-. lia. }
+      assert (Hsep : forall s1, (if first then Some (b :: rest)
+                 else if (b =? 44)%N then
+                   match skip_ws rest with
+                   | [] => None
+                   | c :: r' => if (c =? 93)%N then None else Some (c :: r')
+                   end
+                 else None) = Some s1 -> length s1 <= length s).
+      { intros s1. destruct first. { intros H. injection H as <-. cbn [length]. lia. }
+        destruct (b =? 44)%N; [|discriminate]. pose proof (skip_ws_len rest) as Hr.
+        destruct (skip_ws rest) as [|c r']; [discriminate|]. destruct (c =? 93)%N; [discriminate|].
+        intros H. injection H as <-. lia. }
+      destruct (if first then _ else _) as [s1|]; [|discriminate]. specialize (Hsep s1 eq_refl).
+      destruct (pval nf f d s1) as [[v0 s2]|] eqn:E; [|discriminate]. apply IHv in E.
+      intros H. apply IHa in H. lia.
+    - intros d first s acc v r. rewrite pobj_S. pose proof (skip_ws_len s) as Hs.
+      destruct (skip_ws s) as [|b rest]; [discriminate|]. cbn [length] in Hs.
+      destruct (b =? 125)%N. { intros H. injection H as _ <-. lia. }
+      assert (Hsep : forall s1, (if first then Some (b :: rest) else if (b =? 44)%N then Some (skip_ws rest) else None) = Some s1 ->
+                                length s1 <= length s).
+      { intros s1. destruct first. { intros H. injection H as <-. cbn [length]. lia. }
+        destruct (b =? 44)%N; [|discriminate]. pose proof (skip_ws_len rest) as Hr.
+        intros H. injection H as <-. lia. }
+      destruct (if first then _ else _) as [s1|]; [|discriminate]. specialize (Hsep s1 eq_refl).
+      destruct s1 as [|q s2]; [discriminate|]. destruct (q =? 34)%N; [|discriminate].
+      destruct (parse_str s2) as [[k s3]|] eqn:E3; [|discriminate].
+      apply (parse_str_len _ _ _ _ (le_n _)) in E3.
+      pose proof (skip_ws_len s3) as H3. destruct (skip_ws s3) as [|c s4]; [discriminate|].
+      destruct (c =? 58)%N; [|discriminate].
+      destruct (pval nf f d s4) as [[v0 s5]|] eqn:E; [|discriminate]. apply IHv in E.
+      intros H. apply IHo in H. cbn [length] in *. lia.
+  Qed.
+
+  Lemma fuel_stable : forall f1,
+    (forall f2 d s, 2 * length s < f1 -> 2 * length s < f2 -> pval nf f1 d s = pval nf f2 d s) /\
+    (forall f2 d first s acc, 2 * length s + 1 < f1 -> 2 * length s + 1 < f2 ->
+       parr nf f1 d first s acc = parr nf f2 d first s acc) /\
+    (forall f2 d first s acc, 2 * length s + 1 < f1 -> 2 * length s + 1 < f2 ->
+       pobj nf f1 d first s acc = pobj nf f2 d first s acc).
+  Proof.
+    induction f1 as [|f1 [IHv [IHa IHo]]]; [repeat split; intros; lia|].
+    split; [|split].
+    - intros f2 d s H1 H2. destruct f2 as [|f2]; [lia|]. rewrite !pval_S.
+      pose proof (skip_ws_len s) as Hs. destruct (skip_ws s) as [|b rest]; [reflexivity|]. cbn [length] in Hs.
+      destruct (b =? 110)%N; [reflexivity|]. destruct (b =? 116)%N; [reflexivity|]. destruct (b =? 102)%N; [reflexivity|].
+      destruct (b =? 45)%N; [reflexivity|]. destruct (is_digit b); [reflexivity|]. destruct (b =? 34)%N; [reflexivity|].
+      destruct (b =? 91)%N. { destruct d as [|[|d']]; try reflexivity. apply IHa; lia. }
+      destruct (b =? 123)%N; [|reflexivity]. destruct d as [|[|d']]; try reflexivity. apply IHo; lia.
+    - intros f2 d first s acc H1 H2. destruct f2 as [|f2]; [lia|]. rewrite !parr_S.
+      pose proof (skip_ws_len s) as Hs. destruct (skip_ws s) as [|b rest]; [reflexivity|]. cbn [length] in Hs.
+      destruct (b =? 93)%N; [reflexivity|].
+      assert (Hsep : forall s1, (if first then Some (b :: rest)
+                 else if (b =? 44)%N then
+                   match skip_ws rest with
+                   | [] => None
+                   | c :: r' => if (c =? 93)%N then None else Some (c :: r')
+                   end
+                 else None) = Some s1 -> length s1 <= length s).
+      { intros s1. destruct first. { intros H. injection H as <-. cbn [length]. lia. }
+        destruct (b =? 44)%N; [|discriminate]. pose proof (skip_ws_len rest) as Hr.
+        destruct (skip_ws rest) as [|c r']; [discriminate|]. destruct (c =? 93)%N; [discriminate|].
+        intros H. injection H as <-. lia. }
+      destruct (if first then _ else _) as [s1|]; [|reflexivity]. specialize (Hsep s1 eq_refl).
+      rewrite (IHv f2 d s1) by lia.
+      destruct (pval nf f2 d s1) as [[v0 s2]|] eqn:E; [|reflexivity].
+      apply (proj1 (parse_lens f2)) in E. apply IHa; lia.
+    - intros f2 d first s acc H1 H2. destruct f2 as [|f2]; [lia|]. rewrite !pobj_S.
+      pose proof (skip_ws_len s) as Hs. destruct (skip_ws s) as [|b rest]; [reflexivity|]. cbn [length] in Hs.
+      destruct (b =? 125)%N; [reflexivity|].
+      assert (Hsep : forall s1, (if first then Some (b :: rest) else if (b =? 44)%N then Some (skip_ws rest) else None) = Some s1 ->
+                                length s1 <= length s).
+      { intros s1. destruct first. { intros H. injection H as <-. cbn [length]. lia. }
+        destruct (b =? 44)%N; [|discriminate]. pose proof (skip_ws_len rest) as Hr.
+        intros H. injection H as <-. lia. }
+      destruct (if first then _ else _) as [s1|]; [|reflexivity]. specialize (Hsep s1 eq_refl).
+      destruct s1 as [|q s2]; [reflexivity|]. destruct (q =? 34)%N; [|reflexivity].
+      destruct (parse_str s2) as [[k s3]|] eqn:E3; [|reflexivity].
+      apply (parse_str_len _ _ _ _ (le_n _)) in E3.
+      pose proof (skip_ws_len s3) as H3. destruct (skip_ws s3) as [|c s4]; [reflexivity|].
+      destruct (c =? 58)%N; [|reflexivity]. cbn [length] in *.
+      rewrite (IHv f2 d s4) by lia.
+      destruct (pval nf f2 d s4) as [[v0 s5]|] eqn:E; [|reflexivity].
+      apply (proj1 (parse_lens f2)) in E. apply IHo; lia.
+  Qed.
+
+  (* the answer of parse_json does not depend on its fuel: any larger fuel gives the same Value or the same refusal,
+     so a refusal is always a refusal of the text (a syntax error, a number out of range, nesting deeper than 127) *)
+  Theorem parse_json_fuel_stable s f : json_fuel s <= f -> pval nf f 128 s = pval nf (json_fuel s) 128 s.
+  Proof. intros H. unfold json_fuel in *. apply (proj1 (fuel_stable f)); lia. Qed.
+End Fuel.
